@@ -60,6 +60,10 @@ def main(tier):
     fb2, _ = pygen.enum_frame_bodies(2)
     fb3, _ = pygen.enum_frame_bodies(3, rng, None if thorough else 700)
     mods += pygen.modules_from_bodies(fb2 + fb3[len(fb2) if thorough else 0:])
+    # async defs, methods and decorated definitions (the files of this check are not executed): every third module
+    for m in mods[::3]:
+        if not m.get("dup"):
+            m["ast"], m["lines"] = pygen.layout(m["ast"], deco_rng=rng)
     d = lib.fresh_dir("c03")
     cc.write_modules(mods, d)
     stats = dict(functions=0, c03_functions=0, complexity_hist={}, risk_checks=0, dead_decisions=0, extra_functions=0,
